@@ -1,6 +1,7 @@
 import BindgenModel.Driver.C03
 import BindgenModel.Driver.C07
 import BindgenModel.Driver.C08
+import BindgenModel.Driver.C16
 import BindgenModel.Driver.C17
 /-! `bgmodel`: one request per input line, one answer per output line (lines between `ir-begin`
 and `ir-end` load an IR dump and produce no output). -/
@@ -19,6 +20,7 @@ def dispatch (st : St) (line : String) : St × Option String :=
   match (line.splitOn " ").filter (· ≠ "") with
   | "bfalloc" :: rest => (st, some (Driver.C03.handleAlloc rest))
   | "bf" :: rest => (st, some (Driver.C03.handle rest))
+  | "cdecl" :: rest => (st, some (Driver.C16.handle rest))
   | "c17" :: rest => (st, some (Driver.C17.handle rest))
   | ["irderives"] => (st, some (Driver.C08.derives st.ir))
   | ["irchk", seed] => (st, some (Driver.C07.check st.ir (seed.toNat?.getD 0)))
